@@ -896,4 +896,109 @@ theorem merge_go_array_refines (cfg : Cfg) (rs : Str) : goMergeAll cfg rs = merg
 theorem fragments_go_loop_refines (specials : List Special) (hne : ∀ q ∈ specials, q.lit ≠ []) (s : Str) :
     goFragments specials s = fragments specials s := goFragments_eq specials hne s
 
+/-! ## what is proved about the pre-tokenizer: ANY function whose pieces concatenate to its input -/
+
+/-- a pre-tokenizer "partitions" when the pieces it returns concatenate to its input -/
+def Partitions (split : Str → List Str) : Prop := ∀ t, (split t).flatten = t
+
+/-- **BPE round trip for EVERY partitioning pre-tokenizer.**  Nothing else about the regular expression is used:
+    whatever function cuts the text fragments into pieces, as long as the pieces concatenate to the fragment, every
+    well-formed covering vocabulary, every list of (non-empty, self-decoding) special tokens and every text without NUL
+    round-trip.  That the REAL regexp2 split partitions is not a theorem: it is the L2 clause `split-partition`, evaluated
+    on the whole text and on every text fragment of every BPE call and on a sweep over all Unicode scalar values. -/
+theorem bpe_roundtrip_any_partitioning_split (V : Vocab) (split : Str → List Str) (hpart : Partitions split)
+    (specials : List Special) (s : Str) (hwf : V.Wf) (hcov : V.CoversBytes false)
+    (hne : ∀ q ∈ specials, q.lit ≠ []) (hsp : ∀ q ∈ specials, decodeRunes (V.tokStr q.id) = q.lit)
+    (hs : ∀ b ∈ s, b < 256 ∧ b ≠ 0) :
+    bpeDecode V (bpeEncode false V split specials noAdd s) = s :=
+  bpe_roundtrip_fixed V split specials s hwf hcov hne (fun t _ => hpart t) hsp hs
+
+/-- the hypothesis is necessary: a split that loses a character loses it in the round trip (`~` dropped) -/
+theorem split_partition_needed_witness :
+    let dropSplit : Str → List Str := fun t => (t.filter (· != 126)).map fun b => [b]
+    ¬ Partitions dropSplit ∧
+    bpeDecode idVocab (bpeEncode false idVocab dropSplit [] noAdd [97, 126, 98]) = [97, 98] := by
+  refine ⟨fun h => ?_, by decide⟩
+  have := h [126]
+  revert this
+  decide
+
+/-- non-vacuity: `byteSplit` (one piece per byte) and "one piece" both partition -/
+example : Partitions byteSplit ∧ Partitions (fun t => [t]) := by
+  constructor
+  · intro t; induction t with
+    | nil => rfl
+    | cons b t ih => simpa [byteSplit] using ih
+  · intro t; simp
+
+/-! ## SentencePiece: guard 2 as a condition on the text alone -/
+
+theorem utf8s_cons (r : Nat) (m : Str) : utf8s (r :: m) = utf8 r ++ utf8s m := by simp [utf8s]
+
+/-- if the UTF-8 bytes of `m` start with the ASCII byte `c`, then `m` starts with the rune `c` -/
+theorem utf8s_head_ascii (m : Str) (c : Nat) (rest : Str) (hc : c < 0x80) (h : utf8s m = c :: rest) :
+    ∃ m', m = c :: m' ∧ utf8s m' = rest := by
+  cases m with
+  | nil => simp [utf8s] at h
+  | cons r m' =>
+    rw [utf8s_cons] at h
+    have hr : r = c := by
+      unfold utf8 at h
+      split at h
+      · simp at h; exact h.1
+      · split at h
+        · simp at h; omega
+        · split at h
+          · simp at h; omega
+          · simp at h; omega
+    subst hr
+    have : utf8 r = [r] := by simp [utf8, hc]
+    rw [this] at h
+    simp at h
+    exact ⟨m', rfl, h⟩
+
+/-- **Guard 2 of the SPM round trip holds for every text that does not contain `<0x`** (any vocabulary): sharper than
+    `noByteLit_of_no_lt`, and a condition on the text alone. -/
+theorem noByteLit_of_no_0x (V : Vocab) (s : Str) (h : ¬ Occurs [60, 48, 120] s) : NoByteLit V s := by
+  intro pre m post hs _
+  cases hp : parseByteTok (utf8s m) with
+  | none => rfl
+  | some x =>
+    exfalso
+    have hshape : ∃ c1 c2, utf8s m = [60, 48, 120, c1, c2, 62] := by
+      unfold parseByteTok at hp
+      split at hp
+      · rename_i c1 c2 heq
+        exact ⟨c1, c2, heq⟩
+      · cases hp
+    obtain ⟨c1, c2, hu⟩ := hshape
+    obtain ⟨m1, e1, h1⟩ := utf8s_head_ascii m 60 _ (by decide) hu
+    obtain ⟨m2, e2, h2⟩ := utf8s_head_ascii m1 48 _ (by decide) h1
+    obtain ⟨m3, e3, _⟩ := utf8s_head_ascii m2 120 _ (by decide) h2
+    apply h
+    refine ⟨pre, m3 ++ post, ?_⟩
+    rw [hs, e1, e2, e3]
+    simp
+
+/-- **SentencePiece round trip with guards on the TEXT only**, for the vocabulary the code builds: valid code points, no
+    U+2581 (necessary: `spm_sep_witness`), no `<0x` — the vocabulary conditions (`hbt`, `hsep`, `hshape`, no panic, no empty
+    special, scores) are decidable facts about the data (discharged by `decide +kernel` for `spmData` below, and for the
+    driver's `spm` vocabulary by `Tie.C20.spm_synth_vocabulary_hypotheses`). -/
+theorem concrete_spm_roundtrip_text_guards (sk : Bool) (D : VocabData) (sps : List Str)
+    (hsp : D.specialStrings sk = some sps) (hne : [] ∉ sps) (hsc : D.ScoresOk)
+    (hbt : ∀ b, b < 256 → byteTok b ∈ D.values) (hsep : [sepRune] ∈ D.values)
+    (hshape : ∀ q ∈ sps, parseByteTok (utf8s q) = none) (s : Str)
+    (hvalid : ∀ r ∈ s, r < 0x110000) (hnosep : sepRune ∉ s) (hno0x : ¬ Occurs [60, 48, 120] s) :
+    spmDecode D.vocab (spmEncode D.vocab (D.specialsOf (fun x => x) sps) noAdd s) = some (utf8s s) :=
+  concrete_spm_roundtrip_partial sk D sps hsp hne hsc s hbt (fun _ => hsep) hshape hvalid hnosep
+    (noByteLit_of_no_0x _ _ hno0x)
+
+/-- every vocabulary condition of `concrete_spm_roundtrip_text_guards` decided for `spmData`: what is left is a statement
+    about ALL texts with the three textual guards -/
+theorem spmData_roundtrip (s : Str) (hvalid : ∀ r ∈ s, r < 0x110000) (hnosep : sepRune ∉ s)
+    (hno0x : ¬ Occurs [60, 48, 120] s) :
+    spmDecode spmData.vocab (spmEncode spmData.vocab [] noAdd s) = some (utf8s s) :=
+  concrete_spm_roundtrip_text_guards false spmData [] (by decide +kernel) (by simp)
+    (by unfold VocabData.ScoresOk; decide +kernel) (by decide +kernel) (by decide +kernel) (by simp) s hvalid hnosep hno0x
+
 end OllamaVerif.C20
